@@ -416,9 +416,6 @@ func vsManagerWorld(s *verifsim.Sim) {
 	peerCtx, cancelPeers := context.WithCancel(context.Background())
 	defer cancelPeers()
 	timedOut := 0
-	touched := map[peer.ID]bool{}          // undiscovered, disconnected or reported for blacklisting at some point
-	notified := map[peer.ID]map[int]bool{} // Validate for (peer, hash) has returned
-	headerHandled := map[int]bool{}        // the header of the hash was fed and the feed has been drained since
 	for ti := 0; ti < ntasks; ti++ {
 		nops := s.Range(2, 7, "nops")
 		ops := make([]mop, nops)
@@ -439,12 +436,6 @@ func vsManagerWorld(s *verifsim.Sim) {
 					}
 					announced[o.peer][o.hash] = true
 					res := m.Validate(ctx, o.peer, shrexsub.Notification{DataHash: hi.hash, Height: hi.height})
-					if res == pubsub.ValidationIgnore {
-						if notified[o.peer] == nil {
-							notified[o.peer] = map[int]bool{}
-						}
-						notified[o.peer][o.hash] = true
-					}
 					if wasBlack && res != pubsub.ValidationReject {
 						s.Violate("manager-accepts-blacklisted", "Validate", "notification from blacklisted peer %s got result %v, want reject", o.peer, res)
 					}
@@ -454,17 +445,14 @@ func vsManagerWorld(s *verifsim.Sim) {
 					}
 					confirmed[o.hash] = true
 					hsub.ch <- &header.ExtendedHeader{RawHeader: header.RawHeader{Height: int64(hi.height), DataHash: hi.hash}}
-					headerHandled[o.hash] = true // judged only after the final drain, when the loop has consumed it
 				case mDiscover:
 					if !m.isBlacklistedPeer(o.peer) {
 						discovered[o.peer] = true
 					}
 					m.UpdateNodePool(o.peer, true)
 				case mUndiscover:
-					touched[o.peer] = true
 					m.UpdateNodePool(o.peer, false)
 				case mDisconnect:
-					touched[o.peer] = true
 					_ = emitter.Emit(event.EvtPeerConnectednessChanged{Peer: o.peer, Connectedness: network.NotConnected})
 				case mGetPeer:
 					if !hi.valid {
@@ -476,7 +464,6 @@ func vsManagerWorld(s *verifsim.Sim) {
 					}
 					confirmed[o.hash] = true
 					pid, done, err := m.Peer(peerCtx, hi.hash, hi.height)
-					headerHandled[o.hash] = true // Peer confirms the hash it is asked for before anything else
 					s.Note("%s: Peer(hash%d) -> %s err=%v", name, o.hash, pid, err)
 					if err != nil {
 						timedOut++
@@ -495,7 +482,6 @@ func vsManagerWorld(s *verifsim.Sim) {
 					case 1:
 						done(ResultCooldownPeer)
 					case 2:
-						touched[pid] = true
 						done(ResultBlacklistPeer)
 					}
 				}
@@ -524,31 +510,6 @@ func vsManagerWorld(s *verifsim.Sim) {
 		}
 		alts = append(alts, s.StallAlt(stalls[step%len(stalls)], 2))
 		s.Pick("step", alts)
-	}
-
-	// A peer that announced a hash a header has confirmed belongs to the discovered-nodes pool once both
-	// the announcement and the confirmation have been handled - judged for peers nothing ever removed
-	// (no undiscover, disconnect or blacklisting in the run), after all tasks that can still run have run.
-	s.Drain(5000)
-	if !s.Violated() {
-		var missing []string
-		s.Do("nodes-pool-check", func() {
-			for _, id := range ids {
-				if touched[id] || m.isBlacklistedPeer(id) {
-					continue
-				}
-				for hi := range announced[id] {
-					if notified[id][hi] && headerHandled[hi] && hashes[hi].valid && !m.nodes.has(id) {
-						missing = append(missing, fmt.Sprintf("%s (announced hash%d)", id, hi))
-					}
-				}
-			}
-		})
-		if len(missing) > 0 {
-			sort.Strings(missing)
-			s.Violate("manager-confirmed-announcer-not-promoted", "nodes", "peers %v announced a hash that a header confirmed, nothing ever removed them, yet they are not in the discovered-nodes pool: Peer() will throw them away as unreachable", missing)
-			return
-		}
 	}
 
 	// fair end phase: every blocked Peer() caller must be woken by a peer that becomes available.
